@@ -41,7 +41,7 @@ TABLE = {
                                    ((('forall', 'p1'),), ('succ', 'r_len(each(p1))'))))),
                      ((), ('any', (((('forall', 'skip(p1,1)'),), ('cmp', 'Eq', 'r_len(each(p1)<skip>)', "r_len(p1['first'])")),
                                    ((('forall', 'p1'),), ('cmp', 'Eq', 'r_len(each(p1))', "r_len(p1['first'])"))))),
-                     ((), ('succ', "try_into(r_len(p1['first']))"))],
+                     ((), ('succ', "try_from(r_len(p1['first']))"))],
         'extra': [],
     },
     'CommitmentOpening::r_len': {'expected': [((), ('cmp', 'Le', '1', 'len(p1.r)'))], 'extra': []},
@@ -57,7 +57,7 @@ TABLE = {
 STORED = {
     'RangeParameters::<P>::init': {'pc_gens': 'p3', 'bp_gens': 'new(p1,p2)'},
     'RangeStatement::<P>::init': {'generators': 'p1', 'commitments': 'p2', 'minimum_value_promises': 'p3', 'seed_nonce': 'p4'},
-    'RangeWitness::init': {'openings': 'p1', 'extension_degree': "try_into(r_len(p1['first']))"},
+    'RangeWitness::init': {'openings': 'p1', 'extension_degree': "try_from(r_len(p1['first']))"},
     'ExtendedMask::assign': {'blindings': 'p2'},
     'CommitmentOpening::new': {'v': 'p1', 'r': 'p2'},
 }
